@@ -20,12 +20,14 @@ import (
 func c09Src() tm.Tree {
 	f := func(p string) tm.Entry { return tm.File(p, []byte("src:"+p), 0o644, tm.Past) }
 	// "report-2024", "lib64" and "d/data.bak" have extraneous candidates that are strict prefixes of them
-	return tm.Tree{f("a"), f("c"), f("e"), tm.D("d", 0o755, tm.Past), f("d/a"), f("d/c"), f("d/data.bak"), f("lib64"), f("report-2024")}
+	// "d-old" and "d.bak" sort between "d" and "d/a" in the file list but come after d's contents in a directory walk
+	return tm.Tree{f("a"), f("c"), f("e"), tm.D("d", 0o755, tm.Past), f("d/a"), f("d/c"), f("d/data.bak"), f("lib64"), f("report-2024"),
+		f("d-old"), tm.D("d.bak", 0o755, tm.Past), f("d.bak/k")}
 }
 
 // extraneous candidates, in every sort position relative to the listed names
 var c09TopExtra = []string{"0", "b", "f", "z", "report", "lib"}
-var c09SubExtra = []string{"d/0", "d/b", "d/z", "d/data"}
+var c09SubExtra = []string{"d/0", "d/b", "d/z", "d/data", "d.bak/z"}
 
 func c09Extra(name string, kind byte) tm.Tree {
 	switch kind {
@@ -49,7 +51,7 @@ type c09Case struct {
 }
 
 func (c c09Case) String() string {
-	return fmt.Sprintf("top-extraneous=%06b sub-extraneous=%04b kinds=%d delete=%v ioerr=%v arr=%s exclude=%q", c.top, c.sub, c.kinds, c.del, c.ioerr, c.arr, c.excl)
+	return fmt.Sprintf("top-extraneous=%06b sub-extraneous=%05b kinds=%d delete=%v ioerr=%v arr=%s exclude=%q", c.top, c.sub, c.kinds, c.del, c.ioerr, c.arr, c.excl)
 }
 
 func bits(n int) int {
@@ -63,16 +65,17 @@ func bits(n int) int {
 func c09Dst(c c09Case) tm.Tree {
 	// listed entries are present: one up to date, one stale, one missing
 	src := c09Src()
-	dst := tm.Tree{*src.Find("a"), tm.File("c", []byte("stale"), 0o644, tm.Past-50), tm.D("d", 0o755, tm.Past), *src.Find("d/a")}
+	dst := tm.Tree{*src.Find("a"), tm.File("c", []byte("stale"), 0o644, tm.Past-50), tm.D("d", 0o755, tm.Past), *src.Find("d/a"),
+		*src.Find("d-old"), *src.Find("d.bak"), *src.Find("d.bak/k")}
 	kindsTop := []byte{tm.Reg, tm.Reg, tm.Reg, tm.Dir, tm.Reg, tm.Dir}
-	kindsSub := []byte{tm.Reg, tm.Reg, tm.Reg, tm.Reg}
+	kindsSub := []byte{tm.Reg, tm.Reg, tm.Reg, tm.Reg, tm.Reg}
 	switch c.kinds {
 	case 1:
 		kindsTop = []byte{tm.Dir, tm.Link, tm.Fifo, tm.Reg, tm.Dir, tm.Reg}
-		kindsSub = []byte{tm.Link, tm.Dir, tm.Fifo, tm.Dir}
+		kindsSub = []byte{tm.Link, tm.Dir, tm.Fifo, tm.Dir, tm.Dir}
 	case 2:
 		kindsTop = []byte{tm.Link, tm.Dir, tm.Dir, tm.Fifo, tm.Link, tm.Fifo}
-		kindsSub = []byte{tm.Dir, tm.Fifo, tm.Link, tm.Link}
+		kindsSub = []byte{tm.Dir, tm.Fifo, tm.Link, tm.Link, tm.Fifo}
 	}
 	for i, n := range c09TopExtra {
 		if c.top&(1<<i) != 0 {
@@ -165,6 +168,23 @@ func c09Judge(c c09Case, before, after tm.Tree, canaryBefore, canaryAfter tm.Tre
 		return true
 	}
 	if same(wantA) || same(wantB) {
+		// "an entry that is present in the source is never deleted": a listed directory, or a listed
+		// file that the update rule leaves alone, must still be the same file system object
+		for _, s := range c09Src() {
+			b, a := before.Find(s.Path), after.Find(s.Path)
+			if b == nil || a == nil || b.Type != a.Type || b.Type != s.Type {
+				continue
+			}
+			if b.Type == tm.Reg && (b.Size != int64(len(s.Data)) || b.Mtime != s.Mtime) {
+				continue // legitimately replaced
+			}
+			if b.Type != tm.Reg && b.Type != tm.Dir {
+				continue
+			}
+			if a.Ino != b.Ino {
+				return core.Fail("listed_entry_deleted_and_recreated", fmt.Sprintf("%s: %q is in the source and was up to date, but afterwards it is a different file system object (inode %d -> %d)", c, s.Path, b.Ino, a.Ino), ff...)
+			}
+		}
 		return nil
 	}
 	want := wantB
@@ -273,7 +293,7 @@ func c09BuildReal(tier string) core.Source {
 				if bits(top) > 3 {
 					continue
 				}
-				for sub := 0; sub < 16; sub++ {
+				for sub := 0; sub < 1<<len(c09SubExtra); sub++ {
 					if bits(sub) > 3 {
 						continue
 					}
